@@ -159,7 +159,8 @@ func AddStandardFilters(fd FilterDictionary) { //nolint: gocyclo
 		if len(s) == 0 {
 			return s
 		}
-		return strings.ToUpper(s[:1]) + s[1:]
+		_, size := utf8.DecodeRuneInString(s)
+		return strings.ToUpper(s[:size]) + s[size:]
 	})
 	fd.AddFilter("downcase", func(s, suffix string) string {
 		return strings.ToLower(s)
